@@ -16,7 +16,9 @@ Binding (spec -> code, complete): every path of that graph is cut into runs (idl
 run is executed by the real PipelineManager.publish() in a scratch work dir: os.listdir returns the listings
 of the behaviour, the store is the real LocalPipelineIo behind a proxy that injects the behaviour's fault
 (BaseException = crash, OSError = failed transfer) at the entry of a put_item, after k bytes of its source
-stream (so the real put_item leaves a really truncated item) or at its exit; at every hook the real store
+stream (so the real put_item leaves a really truncated item) or at its exit, or - action Refuse - INSIDE the real
+put_item by making every open-for-writing below the item's store directory raise ENOSPC (builtins.open, io.open,
+os.open), so that the clean-up path of put_item runs with no destination / temporary file created; at every hook the real store
 (absent / partial / complete by byte comparison) and the location of the image directory are compared with
 the spec state (differences = CONFORMANCE-DRIFT).  At every quiescent point the property's sentences are
 evaluated on the REAL store and directories (these are the VIOLATION monitors; TLC's evaluation of the same
@@ -24,6 +26,8 @@ formulas in the spec state is carried along), and the real `pipeline refresh` (c
 image source) is run to see which images it skips.  The walk is level-synchronised over nodes
 (spec idle state, byte contents of work dir + store): paths that meet in the same node share the replay of
 their continuation and are counted individually.  `./check C18 --replay FILE` re-executes one recorded history.
+One physical scenario outside the graph: an image with a file name of NAME_MAX-4 characters (legal, but name + any
+temporary suffix is not) is published once per listing order and the safety sentences are judged on the real disk.
 """
 import contextlib
 import copy
